@@ -293,6 +293,10 @@ class FluxScriptAdapter(SchedulerScriptAdapter):
             status = {}
             chk_status = JobStatusCode.ERROR
 
+        # The table of a failed job-list query is partial: claim no job state.
+        if chk_status != JobStatusCode.OK:
+            status = {}
+
         return chk_status, status
 
     def cancel_jobs(self, joblist):
